@@ -12,6 +12,8 @@
    HINTS sig <n> hint...   with hint = before after kind(R or Q) ordinal rule <nd> then nd pairs (id pat)
                                          -> as GEN (ExecutionProofExp.from_proof_hints on hint objects)
    RULES sig <nax> kore...   -> OK n [ord kind pat | meta names | sort names ; ...]  (from_kore_definition: every loaded rule with its cached scope)
+   DEF/DEF2 <id> sig <nax> kore...  -> as RULES; remembers the definition under <id> (the real side keeps the LanguageSemantics object)
+   USE <id> kore <nitems> item...   -> as GEN, on the remembered definition (several definitions interleaved in one process)
    pat printed in prefix form: I l r, A l r, X<n> p, U<n> p, e<n>, s<n>, m<n>, y<hex>            *)
 module M = K_model
 
@@ -121,6 +123,24 @@ let names_str l = String.concat "," (List.map show_cstr l)
 let delta_str d = String.concat " , " (List.map (fun (i, p) -> Printf.sprintf "%d=%s" (int_of_n i) (pat_str p)) d)
 
 let guards = ref M.guards_sound
+let defs : (string, M.sig0 * M.kore list) Hashtbl.t = Hashtbl.create 16
+
+let rules_answer sg axs =
+  match M.load_axioms sg M.N0 axs with
+  | Some rs ->
+      Printf.sprintf "OK %d [%s]" (List.length rs)
+        (String.concat " ; " (List.map (fun lr ->
+           Printf.sprintf "%d %s %s | %s | %s" (int_of_n lr.M.lr_rule.M.r_ordinal)
+             (match lr.M.lr_rule.M.r_kind with M.RRewrite -> "R" | M.REquational -> "Q")
+             (pat_str lr.M.lr_rule.M.r_pat) (names_str lr.M.lr_scope.M.sc_meta) (names_str lr.M.lr_scope.M.sc_sort)) rs))
+  | None -> "NONE"
+
+let gen_answer sg axs init items =
+  match M.gen_module !guards sg axs init items with
+  | Some m ->
+      Printf.sprintf "OK A %s C %s P %s" (pats_str m.M.m_axioms) (pats_str m.M.m_claims)
+        (pats_str (List.map (fun (a, d) -> M.inst d a) m.M.m_proofs))
+  | None -> "NONE"
 
 let run line =
   let toks = Array.of_list (List.filter (fun s -> s <> "") (String.split_on_char ' ' line)) in
@@ -131,6 +151,18 @@ let run line =
       (match M.convert sg M.scope0 k with
        | Some (sc, p) -> Printf.sprintf "OK %s | %s | %s" (pat_str p) (names_str sc.M.sc_meta) (names_str sc.M.sc_sort)
        | None -> "NONE")
+  | "DEF" | "DEF2" ->
+      let id = next st in
+      let sg = p_sig st in
+      let nax = next_int st in let axs = times nax (fun () -> p_kore st) in
+      Hashtbl.replace defs id (sg, axs);
+      rules_answer sg axs
+  | "USE" ->
+      let id = next st in
+      let (sg, axs) = (try Hashtbl.find defs id with Not_found -> raise Bad) in
+      let init = p_kore st in
+      let ni = next_int st in let items = times ni (fun () -> p_item st) in
+      gen_answer sg axs init items
   | "RULES" | "RULES2" ->
       let sg = p_sig st in
       let nax = next_int st in let axs = times nax (fun () -> p_kore st) in
